@@ -186,6 +186,7 @@ def run(ck):
                 "E": call(it, am, "effective_energy", v),
                 "isd": call(it, s, "importance_sampling_denominator", v),
                 "R": role_terms(it, am),
+                "shapes": role_shapes(it, am, {"v": ("B", "nv")}),
             }
 
         paths = _ev(ck, diag)
@@ -202,6 +203,9 @@ def run(ck):
                     ea = exp_arg(re)
                     if ea is not None and ea[0] == 1 and ea[2] == ():
                         d = lin_diff(ea[1], -E)
+                        if d[0] == "unknown":
+                            d2 = lin_diff(distribute_cat(ea[1], o["shapes"]), distribute_cat(-E, o["shapes"]))
+                            d = d2 if d2[0] != "unknown" else d
                         ck.check(diff_verdict(d), "C02.R3", "diagonal:re=exp(-E)", rho_site,
                                  "log of the diagonal element rho(s,s) vs -effective_energy(s): " + diff_msg(d), diag=ea[1], E=E)
                     else:
@@ -217,7 +221,26 @@ def run(ck):
                 ck.check(c3 is not None and c3[0] == o["prob"].term and c3[1].is_zero(), "C02.R3", "importance_sampling_denominator", prog.method(DM, "importance_sampling_denominator").site(),
                          "importance_sampling_denominator(v) is not (probability(v), 0)")
                 # R5 energy normal form
-                d = lin_diff(E, ref_energy(T.sym("v"), o["R"]))
+                refE = ref_energy(T.sym("v"), o["R"])
+                d = lin_diff(E, refE)
+                note = ""
+                if d[0] == "unknown":
+                    # hidden and auxiliary layer fused into one latent layer (concatenated weights and biases): pushed apart
+                    # again where the segment sizes agree - for all sizes, else in the instance num_aux == num_hidden
+                    E2 = distribute_cat(E, o["shapes"])
+                    if E2 != E and lin_diff(E2, refE)[0] != "unknown":
+                        d = lin_diff(E2, refE)
+                    else:
+                        sizes = {str(sh[0]) for nm_, sh in o["shapes"].items() if nm_ != "v" and len(sh) == 2}
+                        if len(sizes) == 2:
+                            keep = sorted(sizes)[0]
+                            eq = {nm_: tuple(keep if str(x) in sizes else x for x in sh) for nm_, sh in o["shapes"].items()}
+                            E3 = distribute_cat(E, eq)
+                            pd = pairing_diff(E3, refE) if E3 != E else None
+                            if E3 != E and E3 == refE:
+                                pass  # equal in that instance only: stays undecided for the other sizes
+                            elif pd is not None:
+                                d = ("coeff", "the latent layer (instance num_aux == num_hidden)", pd, "each weight matrix with its own layer's bias")
                 ck.check(diff_verdict(d), "C02.R5", "effective_energy(v)", prog.method("PurificationRBM", "effective_energy").site(),
                          "purification effective energy vs -v.b - sum sp(Wv+c) - sum sp(Uv+d): " + diff_msg(d), E=E)
     with ck.guard("C02.R5", "effective_energy(v,a)"):
